@@ -173,6 +173,10 @@ def callEvents (env : Env) (fs : FS) (c : Call) : List String :=
   | .symlink t p =>
     let tt := match t with | .abs q => "abs:" ++ pathStr q | .rel q => "rel:" ++ pathStr q
     if ok then [s!"symlink {tt} {pathEv p}"] else []
+  | .mkTempLink dir t =>
+    let tt := match t with | .abs q => "abs:" ++ pathStr q | .rel q => "rel:" ++ pathStr q
+    if ok then [s!"symlink {tt} {pathStr dir}/*"] else []
+  | .renameLink s d => if ok then [s!"rename {pathEv s} {pathEv d}"] else []
   | .copyFile s d =>
     match r with
     | .nat n => [s!"open-create {pathEv d} O_WRONLY|O_CREAT|O_TRUNC", s!"copy {pathEv s} {pathEv d} {n}"]
